@@ -119,7 +119,7 @@ def main():
             "guard": "PSTLAB_ORATIO_VERIF",
             "enable": "harnesses are compiled by tools/vlib.py from /repo's working tree with -DPSTLAB_ORATIO_VERIF (direct g++ of the needed sources, or cmake -DCMAKE_CXX_FLAGS=-DPSTLAB_ORATIO_VERIF for whole-solver checks)",
             "baseline_off_cmd": "/verif/tools/baseline.sh",
-            "source_commits": ["813cd3840c821cd6d4af965a7ffa805809ef787e", "5311fb2bcabb48eb3ca8984db0a16f5b698f55f0"],
+            "source_commits": ["813cd3840c821cd6d4af965a7ffa805809ef787e", "5311fb2bcabb48eb3ca8984db0a16f5b698f55f0", "bc51bcc8daa088058beee1ccaaf62b6b0b8ac656"],
             "add_only": True,
         },
         "engines": [{"name": "lean-proof+correspondence", "path": "/verif/tools/run.py",
